@@ -8,7 +8,10 @@ HERE = os.path.dirname(os.path.dirname(os.path.abspath(__file__)))
 
 BASE = ("real /repo scripts run (fork + runpy) on tmpfs under an os.*/open "
         "interposition shim (event trace, virtual mount table, write fence, "
-        "audit-hook cross-check); ")
+        "audit-hook cross-check per run; a sample of every run is replayed on "
+        "real tmpfs mounts in a private mount namespace and in fresh "
+        "interpreters, disagreement = inconclusive); runtime contracts "
+        "(icontract) on the pure functions are bound in every run; ")
 
 P = {
  'C01': ('exploration', 'snapshot-diff oracle over generated worlds, spellings and options',
@@ -60,7 +63,11 @@ ENGINES = [
     ('E4 snapshotter', 'vf/snap.py', 'lstat/sha256 snapshots, signatures, diffs'),
     ('E5 reference semantics', 'vf/spec.py', 'independent spec implementation: percent coding, .trashinfo grammar, trash-dir decision table, glob, reply grammar, age rule'),
     ('E6 outcome analysis / model', 'vf/putcheck.py', 'TRASHED/UNTOUCHED/frame analysis; bag model'),
-    ('E7 driver', 'check', 'sharded case execution, floors, three-valued verdicts, evidence, known-finding matching, replay'),
+    ('E7 driver', 'check', 'sharded case execution, floors, three-valued verdicts, evidence, known-finding matching, replay, real-mount and fresh-interpreter cross-checks'),
+    ('contracts', 'vf/contracts.py', 'icontract postconditions on format_trashinfo, OriginalLocation.for_file, parse_path, parse_deletion_date, parse_indexes, scope test, older_than, Filter.matches - bound at every reference, counted'),
+    ('injection', 'vf/inject.py', 'crash-point / fault-plan scenarios, SIGKILL at random instants'),
+    ('scheduler', 'vf/sched.py', 'process scheduler over visible file-system operations: preemption-bounded DFS, random, PCT'),
+    ('self-validation', 'tools/mutation_audit', 'applies mutants/*.diff and seeded/*/patch.diff to scratch copies of /repo and records which check fires'),
 ]
 
 
